@@ -68,7 +68,7 @@ def one_kind(kind: str, reps: int, flush_every: int) -> Dict[str, Any]:
             na += 1
             hist += [{"s": "qubit", "h": f"Q{nq}"}, {"s": "meas", "q": f"Q{nq}", "inplace": False, "into": {"k": "new", "h": f"A{na}"}}]
             meas += 1
-        elif kind == "measure-register":
+        elif kind in ("measure-register", "measure-register-nonblocking-flush"):
             nq += 1
             hist += [{"s": "qubit", "h": f"Q{nq}"}, {"s": "meas", "q": f"Q{nq}", "inplace": False, "into": {"k": "newreg", "h": f"F{nq}"}}]
             meas += 1
@@ -86,8 +86,8 @@ def one_kind(kind: str, reps: int, flush_every: int) -> Dict[str, Any]:
                     {"s": "if", "cmp": "ez" if r % 2 else "ge", "a": fut("A1", lv(2)), "b": c(1), "form": "ctx", "body": [
                         {"s": "add", "t": fut("A2", lv(2)), "o": lv(1), "mod": -1}]}]}]})
         if (r + 1) % flush_every == 0:
-            hist.append({"s": "flush"})
-            if kind == "measure-register":
+            hist.append({"s": "flush", "block": False} if kind == "measure-register-nonblocking-flush" else {"s": "flush"})
+            if kind in ("measure-register", "measure-register-nonblocking-flush"):
                 hist.append({"s": "read", "loc": {"k": "reg", "h": f"F{nq}"}})
     hist += [{"s": "flush"}, {"s": "read", "loc": {"k": "arr", "a": "A2"}}]
     return {"history": hist, "meas": [i % 2 for i in range(meas + 4)], "kind": kind}
@@ -111,11 +111,11 @@ def long_history(rng: random.Random, nops: int, flush_every: int) -> Dict[str, A
     return {"history": hist, "meas": [rng.randrange(2) for _ in range(g.meas_used + 8)], "kind": "mixed"}
 
 
-KINDS = ["ez", "nz", "eq", "ne", "lt", "ge", "if-two-futures", "loop", "loop-named-register", "foreach", "until", "add-constants", "add-future", "future-indexed-by-future", "measure-array", "measure-register", "nested", "empty-bodies"]
+KINDS = ["ez", "nz", "eq", "ne", "lt", "ge", "if-two-futures", "loop", "loop-named-register", "foreach", "until", "add-constants", "add-future", "future-indexed-by-future", "measure-array", "measure-register", "measure-register-nonblocking-flush", "nested", "empty-bodies"]
 
 
 EPR_KINDS = ["create_keep", "create_keep_with_info", "recv_keep", "create_keep_sequential", "recv_keep_sequential", "create_context", "recv_context",
-             "create_context_refused_body", "recv_context_refused_body",
+             "create_context_refused_body", "recv_context_refused_body", "create_keep_min_fidelity", "recv_keep_min_fidelity", "array_undefine",
              "create_measure", "recv_measure", "create_rsp", "recv_rsp"]
 # (an entanglement operation inside an SDK loop, and using the handles returned next to a non-sequential post routine,
 #  are not usages the SDK documents; they are not part of the sequences)
@@ -177,6 +177,16 @@ def _run_epr(item):
                 pass
             else:
                 raise RuntimeError("rig: the second measurement of the pair's qubit was not refused")
+        elif kind in ("create_keep_min_fidelity", "recv_keep_min_fidelity"):
+            # a request with a fidelity constraint (compiled to a loop_until that clears the results array before every
+            # attempt); the link is fast, so the first attempt is accepted
+            if kind.startswith("recv"):
+                stream(1)
+            f_ = sock.create_keep if kind.startswith("create") else sock.recv_keep
+            f_(1, min_fidelity_all_at_end=80, max_tries=2)[0].measure()
+        elif kind == "array_undefine":
+            arr_ = conn.new_array(3, init_values=[1, 2, 3])
+            arr_.undefine()
         elif kind == "create_measure":
             sock.create_measure(2)
         elif kind == "recv_measure":
